@@ -120,6 +120,69 @@ func TestC16(t *testing.T) {
 			}
 		}
 	}
+	// helper isolation: each helper-requiring construct alone, as statement / value, at top level,
+	// inside a function, and inside a loop inside a function ("each helper routine exactly when it is used")
+	iso := []struct{ name, decl, use string }{
+		{"slice-literal", "", "s := []int{1, 2}"},
+		{"element-assign", "var s []int", "s[2] = 5"},
+		{"element-read", "s := []string{\"a\"}", "x := s[0]"},
+		{"len-slice", "s := []bool{true}", "x := len(s)"},
+		{"len-string", "w := \"abc\"", "x := len(w)"},
+		{"copy-statement", "s := []int{1, 2}\nvar d []int", "copy(d, s)"},
+		{"copy-value", "s := []int{1, 2}\nvar d []int", "n := copy(d, s)"},
+		{"string-index", "w := \"abc\"", "x := w[1]"},
+		{"substring", "w := \"abc\"", "x := w[0:2]"},
+		{"range-slice", "s := []int{1, 2}", "for i, v := range s {\n}"},
+		{"range-string", "w := \"ab\"", "for i, v := range w {\n}"},
+		{"print", "", "print(1, \"a\")"},
+		{"print-empty", "", "print()"},
+		{"panic", "", "panic(\"p\")"},
+		{"input", "", "x := input()"},
+		{"input-statement", "", "input(\"p\")"},
+		{"read", "", "x := read(\"f.txt\")"},
+		{"write", "", "write(\"f.txt\", \"d\")"},
+		{"write-append", "ab := true", "write(\"f.txt\", \"d\", ab)"},
+		{"exists", "", "x := exists(\"f.txt\")"},
+		{"app-statement", "", "@ls(\"-l\")"},
+		{"app-pipe", "", "@ls() | @sort(\"-r\")"},
+		{"app-capture", "", "o, e, c := @ls() | @sort()"},
+		{"itoa", "k := 3", "x := itoa(k)"},
+		{"concat", "w := \"abc\"", "x := w + \"d\""},
+		{"compare-string", "w := \"abc\"", "x := w == \"d\""},
+		{"multi-assign", "a := 1\nb := 2", "a, b = b, a"},
+		{"switch", "k := 3", "switch k {\ncase 1:\ndefault:\n}"},
+		{"if-elif", "k := 3", "if k == 1 {\n} else if k == 2 {\n} else {\n}"},
+		{"for-break-continue", "k := 3", "for i := 0; i < k; i++ {\n\tif i == 1 {\n\t\tcontinue\n\t}\n\tbreak\n}"},
+	}
+	wraps := []struct{ name, pre, post string }{
+		{"top", "", ""},
+		{"function", "func wrap() {\n", "}\nwrap()\n"},
+		{"loop-in-function", "func wrap() {\nfor q := 0; q < 1; q++ {\n", "}\n}\nwrap()\n"},
+		{"after-sibling-loop", "for q := 0; q < 1; q++ {\n}\nfor q2 := 0; q2 < 1; q2++ {\n", "}\n"},
+	}
+	nIso := 0
+	for i, it := range iso {
+		for j, w := range wraps {
+			nIso++
+			if !e.Mine(i*len(wraps) + j) {
+				continue
+			}
+			src := ""
+			if it.decl != "" {
+				src = it.decl + "\n"
+			}
+			src += w.pre + it.use + "\n" + w.post
+			c := formCase{Kind: "wellformed", Property: "C16", Files: map[string]string{"main.tsh": src}, Main: "main.tsh"}
+			r.Eval()
+			r.Class("isolated:" + it.name)
+			r.NonTrivial(src, nil)
+			if be, rule, msg := checkWellFormed(c); be != "" {
+				r.Violate(rep.Sig{"backend": be, "rule": rule, "isolated": it.name, "wrap": w.name}, it.name+" ("+w.name+"): "+msg+"\n"+src, c)
+			}
+		}
+	}
+	r.SetExtra("n_isolation_programs", 0)
+
 	checkRapid(t, r, func(t *rapid.T) {
 		stmts, tags := gen.Stmts(t, cfg)
 		src := ts.StmtsString(stmts)
